@@ -335,18 +335,27 @@ pub fn multi_finish(_args: &[String]) -> String {
                 pb.set_message(format!("bar{}{}", i, pad));
                 Some(pb)
             }).collect();
-            let mut hist = vec!["three bars".to_string()];
+            // a fourth bar below stays alive and keeps redrawing while the others are dropped
+            let live = mp.add(ProgressBar::new(10));
+            live.set_style(ProgressStyle::with_template("{msg} {pos}/{len}").unwrap());
+            live.set_message("live");
+            let mut hist = vec!["three bars and a fourth one (live) below".to_string()];
             for i in fp {
                 bars[i].as_ref().unwrap().finish();
                 hist.push(format!("finish bar{}", i));
             }
             for i in dp {
                 bars[i] = None;
-                hist.push(format!("drop bar{}", i));
+                live.inc(1);
+                hist.push(format!("drop bar{}; live.inc(1)", i));
             }
+            live.finish();
+            drop(live);
             drop(mp);
             tried += 1;
-            let want: String = (0..3).flat_map(|i| wrap(&format!("bar{}{} 10/10", i, pad))).collect::<Vec<_>>().join("\n");
+            let mut want_rows: Vec<String> = (0..3).flat_map(|i| wrap(&format!("bar{}{} 10/10", i, pad))).collect();
+            want_rows.push("live 10/10".to_string());
+            let want: String = want_rows.join("\n");
             let got = term.contents();
             if got != want {
                 return report("C04 visibly finished bars of a MultiProgress keep their final rendering (all wrapped rows), in order, after all bars are dropped", &hist, &want, &got, "multi_finish");
